@@ -336,3 +336,99 @@ def ob_whole_run_delivery(nw: int, c0: int, c1: int, c2: int, c3: int, c4: int, 
     return (res == [[0, 1, 2]] and works == [0, 1, 2] and joins == [0, 1, 2]
             and [x for x in log if x[0] == "d1"] == [("d1", 7)] and not [x for x in log if x[0] == "d2"]
             and env.maxrun.get("work", 0) <= nw)
+
+
+# ------------------------------------------------------------------ whole run with timers (quick + thorough)
+
+from vlib.h_handlers import conc  # noqa: E402
+from vlib.h_idle import install_speedups  # noqa: E402
+
+install_speedups()  # tooling only; every solver decision is taken before the scenario starts
+
+
+class TNote(Event):
+    i: int
+
+
+class TJobEv(Event):
+    pass
+
+
+class TFin(Event):
+    pass
+
+
+@obligation(quick=240, thorough=600, partitions_quick=[f"d == {d} and t1 == {a}" for d in (1, 2) for a in range(d + 2)],
+            partitions_thorough=[f"d == {d} and t1 == {a} and hold == {h}" for d in (1, 2, 3) for a in range(d + 2) for h in (0, 1, 2)],
+            what="whole run of the real run() loop with the REAL BasicRuntime adapter (asyncio.wait with the timer timeout) on the virtual-time loop: a "
+                 "step is in its retry back-off (timer pending) while the caller sends two events at symbolic instants and the step taking them "
+                 "stays busy for a symbolic time (so timer expiries and mailbox pulls interleave in every order): each sent event is delivered to "
+                 "its step exactly once, the retry happens, the run completes",
+            bounds={"retry delay d": "1..2 (thorough 3)", "send instants": "0..d+1", "busy time of the receiving step": "0..2"})
+def ob_whole_run_sends_during_backoff(d: int, t1: int, t2: int, hold: int) -> bool:
+    """
+    pre: 1 <= d <= DBACK and 0 <= t1 <= d + 1 and t1 <= t2 <= d + 1 and 0 <= hold <= 2
+    post: _
+    """
+    import asyncio
+
+    import workflows.plugins.basic as basic_mod
+    import workflows.runtime.types.step_function as sf_mod
+    from vlib.h_idle import FakeTime
+    from vlib.miniloop import MiniLoop
+    from workflows.retry_policy import retry_policy, stop_after_attempt, wait_fixed
+
+    d, t1, t2, hold = conc(d, 1, 3), conc(t1, 0, 4), conc(t2, 0, 4), conc(hold, 0, 2)
+    got: list = []
+    attempts: list = []
+
+    class W(Workflow):
+        @step
+        async def start(self, ctx: Context, ev: StartEvent) -> TJobEv:
+            return TJobEv()
+
+        @step(retry_policy=retry_policy(wait=wait_fixed(d), stop=stop_after_attempt(3)))
+        async def work(self, ctx: Context, ev: TJobEv) -> None:
+            attempts.append(ctx.retry_info().retry_number)
+            if len(attempts) == 1:
+                raise ValueError("transient")
+            return None
+
+        @step
+        async def note(self, ctx: Context, ev: TNote) -> None:
+            got.append(ev.i)
+            if hold:
+                await asyncio.sleep(hold)
+            return None
+
+        @step
+        async def fin(self, ctx: Context, ev: TFin) -> StopEvent:
+            return StopEvent(result="done")
+
+    loop = MiniLoop()
+    res: list = []
+
+    async def main():
+        h = W(timeout=None, disable_validation=True, runtime=basic_mod.BasicRuntime()).run(run_id="r")  # fresh runtime per path (hermetic)
+
+        async def send(at, i):
+            await asyncio.sleep(at)
+            h.ctx.send_event(TNote(i=i))
+
+        s1, s2 = asyncio.ensure_future(send(t1, 1)), asyncio.ensure_future(send(t2, 2))
+        await s1
+        await s2
+        await asyncio.sleep(d + hold + hold + 3)
+        h.ctx.send_event(TFin())
+        res.append(await asyncio.wait_for(h, timeout=20))
+
+    saved = (basic_mod.time, sf_mod.time)
+    basic_mod.time = sf_mod.time = FakeTime(loop)
+    try:
+        loop.run_until_complete(main())
+    finally:
+        basic_mod.time, sf_mod.time = saved
+    return res == ["done"] and sorted(got) == [1, 2] and attempts == [0, 1]
+
+
+DBACK = B(2, 3)
